@@ -122,7 +122,8 @@ def gen_op(rng, cfg, hot, counter):
 
 
 def generate(rng, idx, tier):
-    cfg = {"kind": F.BLOCK, "bs": rng.choice(BS), "nblocks": rng.choice(CAPS), "dev_type": rng.choice([0, 0, 4, 7])}
+    cfg = {"kind": F.BLOCK, "bs": rng.choice(BS), "nblocks": rng.choice(CAPS), "dev_type": rng.choice([0, 0, 4, 7]),
+           "inq_len": rng.choice([36, 96, 96, 58, 74, 255])}
     n = rng.choice([3, 4, 6, 8, 8, 12, 20, 40])
     faulty = rng.random() < 0.25
     hot = []
@@ -231,6 +232,7 @@ def execute(prog):
     for n, t in enumerate(TRANSPORTS):
         lu = worlds.make_lu(cfg, ident=7 + n)       # two physically distinct, identically initialised LUs
         lu.d_sense = bool(prog["config"].get("d_sense"))
+        lu.inq_len = cfg.get("inq_len", 96)
         dev = worlds.open_device(t, lu)
         if prog["config"].get("shared_facade"):
             # one facade object, re-pointed to the other device before every command (s(dev))
@@ -244,6 +246,7 @@ def execute(prog):
             scsi = SCSI(dev, blocksize=bs)
         side[t] = {"lu": lu, "dev": dev, "scsi": scsi, "model": Model(bs, cfg["nblocks"])}
     summary = []
+    retained = []       # data buffers of earlier reads the application keeps (the command object itself is dropped)
     for i, op in enumerate(prog["ops"]):
         name = op["op"]
         reprs = {}
@@ -323,6 +326,9 @@ def execute(prog):
                                       actual="%d bytes, first difference at byte %d (block %d)" % (len(got), first, first // max(bs, 1))))
                     elif any((op["lba"] + j) in s["model"].written for j in range(op["tl"])):
                         WORLD.probe("readback_written")
+                    if got == want and len(retained) < 16 and len(got):
+                        retained.append((val.datain, want, where))
+                    val = None      # the application drops the command and keeps only the data
                 elif name.startswith("readcapacity"):
                     last = cfg["nblocks"] - 1
                     exp_lba = min(last, 0xFFFFFFFF) if name.endswith("10") else last
@@ -351,6 +357,12 @@ def execute(prog):
             V.append(dict(oracle="C12.transports-differ", where=name, detail="outcome",
                           expected="identical outcome over SG_IO and iSCSI", actual="sgio=%s iscsi=%s" % (reprs["sgio"][:90], reprs["iscsi"][:90])))
         summary.append(reprs["sgio"][:40])
+    for buf, want, where in retained:
+        if bytes(buf) != want:
+            V.append(dict(oracle="C12.retained-data-changed", where=where, detail="later-command",
+                          expected="data read earlier (%d bytes) is still what was read" % len(want), actual="the buffer the caller kept was overwritten by a later command"))
+    if retained:
+        WORLD.probe("retained_buffers", len(retained))
     seen, out = set(), []
     for v in V:
         k = (v["oracle"], v["where"], v["detail"])
